@@ -1,0 +1,163 @@
+//! Verification hooks. Only compiled with the `verif` cargo feature.
+//!
+//! Nothing in here changes behaviour: with no callback installed and no
+//! stream-size override set, every hook is a relaxed atomic load.
+//!
+//! The hooks let an external harness:
+//! * observe stream state changes (emitted while the stream's own lock is
+//!   held, so the event order is the order the implementation serialised
+//!   them in),
+//! * get control at "yield points" outside any lock (to delay or park a
+//!   thread between two steps of a check-then-act sequence),
+//! * make `new_stream()` create small buffers, so that wrap-around and full
+//!   buffers are routine instead of needing megabytes of data.
+use std::sync::atomic::{AtomicUsize, Ordering};
+
+/// Code location of a yield point.
+#[derive(Debug, Clone, Copy, PartialEq, Eq, Hash, PartialOrd, Ord)]
+pub enum Site {
+    /// Entry of `Buffer::read_buf`, before taking the lock.
+    ReadBuf,
+    /// Entry of `Buffer::write_buf`, before taking the lock.
+    WriteBuf,
+    /// Entry of `Buffer::produce`, before taking the lock.
+    Produce,
+    /// Entry of `Buffer::consume`, before taking the lock.
+    Consume,
+    /// Entry of `Buffer::free`, before taking the lock.
+    Free,
+    /// Entry of `Buffer::wait_for_read`, before taking the lock.
+    WaitForRead,
+    /// Entry of `Buffer::wait_for_write`, before taking the lock.
+    WaitForWrite,
+    /// Immediately before an `Arc::strong_count()` peer liveness read.
+    StrongCount,
+    /// Entry of `NCReadStream::pop`.
+    NcPop,
+    /// Entry of `NCWriteStream::push`.
+    NcPush,
+    /// Entry of `NCReadStream::wait`.
+    NcWait,
+    /// Entry of `NCReadStream::eof`.
+    NcEof,
+}
+
+/// Events delivered to the callback.
+#[derive(Debug, Clone, Copy, PartialEq, Eq)]
+pub enum Ev {
+    /// A `Buffer` was created. `capacity` in bytes.
+    BufferCreated {
+        id: usize,
+        capacity: usize,
+        elem: usize,
+    },
+    /// A `Buffer` was dropped.
+    BufferDropped { id: usize },
+    /// `produce(n)` committed. State is as after the update. Lock held.
+    Produce {
+        id: usize,
+        n: usize,
+        ntags: usize,
+        rpos: usize,
+        wpos: usize,
+        used: usize,
+    },
+    /// `consume(n)` committed. State is as after the update. Lock held.
+    Consume {
+        id: usize,
+        n: usize,
+        rpos: usize,
+        wpos: usize,
+        used: usize,
+    },
+    /// A read window `[start,end)` was handed out. Lock held.
+    ReadOpen {
+        id: usize,
+        start: usize,
+        end: usize,
+    },
+    /// A write window `[start,end)` was handed out. Lock held.
+    WriteOpen {
+        id: usize,
+        start: usize,
+        end: usize,
+    },
+    /// A window object was destroyed (after `consume`/`produce`, or unused).
+    WindowDrop { id: usize, write: bool },
+    /// Yield point: no lock held by the calling code. `id` is the buffer id
+    /// (0 if unknown at this site), `addr` the address of the shared object.
+    Yield { site: Site, id: usize, addr: usize },
+    /// A packet was pushed to a no-copy stream (queue lock just released).
+    NcPushed { addr: usize },
+    /// A pop was attempted on a no-copy stream (queue lock just released).
+    NcPopped { addr: usize, got: bool },
+}
+
+/// Callback type.
+pub type Callback = fn(&Ev);
+
+static CALLBACK: AtomicUsize = AtomicUsize::new(0);
+static STREAM_SIZE: AtomicUsize = AtomicUsize::new(0);
+static NEXT_ID: AtomicUsize = AtomicUsize::new(1);
+
+/// Install (or remove) the global event callback.
+pub fn set_callback(cb: Option<Callback>) {
+    CALLBACK.store(cb.map(|f| f as usize).unwrap_or(0), Ordering::SeqCst);
+}
+
+/// Deliver an event to the callback, if any.
+#[inline]
+pub fn emit(ev: Ev) {
+    let p = CALLBACK.load(Ordering::Relaxed);
+    if p != 0 {
+        // SAFETY: only ever stored from a `Callback` in `set_callback`.
+        let f: Callback = unsafe { std::mem::transmute::<usize, Callback>(p) };
+        f(&ev);
+    }
+}
+
+/// Emit a yield point.
+#[inline]
+pub fn yield_point(site: Site, id: usize, addr: usize) {
+    emit(Ev::Yield { site, id, addr });
+}
+
+/// Make buffers requested with the default stream size use `size` bytes
+/// instead. 0 removes the override.
+pub fn set_stream_size(size: usize) {
+    STREAM_SIZE.store(size, Ordering::SeqCst);
+}
+
+/// Apply the stream size override.
+pub(crate) fn buffer_size(requested: usize) -> usize {
+    let o = STREAM_SIZE.load(Ordering::Relaxed);
+    if o != 0 && requested == crate::stream::DEFAULT_STREAM_SIZE {
+        o
+    } else {
+        requested
+    }
+}
+
+/// Allocate a buffer identity and announce the buffer.
+pub(crate) fn buffer_created(capacity: usize, elem: usize) -> usize {
+    let id = NEXT_ID.fetch_add(1, Ordering::Relaxed);
+    emit(Ev::BufferCreated { id, capacity, elem });
+    id
+}
+
+/// Stand-in for `std::sync::Arc` in functions that read the strong count to
+/// decide peer liveness: emits a yield point immediately before the read.
+pub(crate) struct HookedArc;
+
+impl HookedArc {
+    #[inline]
+    pub(crate) fn strong_count<T>(a: &std::sync::Arc<T>) -> usize {
+        yield_point(Site::StrongCount, 0, std::sync::Arc::as_ptr(a) as *const u8 as usize);
+        std::sync::Arc::strong_count(a)
+    }
+    #[inline]
+    #[allow(dead_code)]
+    pub(crate) fn clone<T>(a: &std::sync::Arc<T>) -> std::sync::Arc<T> {
+        std::sync::Arc::clone(a)
+    }
+}
